@@ -70,17 +70,17 @@ var parseCtx = []struct{ pre, post string }{
 	{"\xef\xbb\xbf{namespace a}\n/** */\n{template .b}\n", "\n{/template}\n"}, // 58 valid file after a byte order mark
 	{"\xff\xfe", ""}, // 59 UTF-16 byte order mark
 	// attribute values (k = 0 gives the empty value), the rest of the tag follows
-	{vT + "{call name=", "/}\n{/template}\n"},                                            // 60
-	{vT + "{call name=\"", "\" /}\n{/template}\n"},                                       // 61
-	{vT + "{msg desc=", "}m{/msg}\n{/template}\n"},                                        // 62
-	{vT + "{msg meaning=\"", "\" desc=\"d\"}m{/msg}\n{/template}\n"},                      // 63
-	{"{namespace a autoescape=\"", "\"}\n"},                                               // 64
-	{"{namespace a}\n/** */\n{template .b autoescape=\"", "\"}\nx\n{/template}\n"},         // 65
-	{vT + "{call .t}{param k value=\"", "\"/}{/call}\n{/template}\n"},                    // 66
-	{vT + "{call .t data=\"", "\"/}\n{/template}\n"},                                     // 67
-	{"{namespace a}\n{alias ", "}\n"},                                                    // 68
-	{vT + "{call .t}{param ", ": 1/}{/call}\n{/template}\n"},                              // 69
-	{vT + "{let $x kind=\"", "\"}a{/let}\n{/template}\n"},                                 // 70
+	{vT + "{call name=", "/}\n{/template}\n"},                                               // 60
+	{vT + "{call name=\"", "\" /}\n{/template}\n"},                                          // 61
+	{vT + "{msg desc=", "}m{/msg}\n{/template}\n"},                                          // 62
+	{vT + "{msg meaning=\"", "\" desc=\"d\"}m{/msg}\n{/template}\n"},                        // 63
+	{"{namespace a autoescape=\"", "\"}\n"},                                                 // 64
+	{"{namespace a}\n/** */\n{template .b autoescape=\"", "\"}\nx\n{/template}\n"},          // 65
+	{vT + "{call .t}{param k value=\"", "\"/}{/call}\n{/template}\n"},                       // 66
+	{vT + "{call .t data=\"", "\"/}\n{/template}\n"},                                        // 67
+	{"{namespace a}\n{alias ", "}\n"},                                                       // 68
+	{vT + "{call .t}{param ", ": 1/}{/call}\n{/template}\n"},                                // 69
+	{vT + "{let $x kind=\"", "\"}a{/let}\n{/template}\n"},                                   // 70
 	{vT + "{msg desc=\"\"}{plural $x}{case ", "}a{default}b{/plural}{/msg}\n{/template}\n"}, // 71
 }
 
